@@ -104,6 +104,13 @@ Inductive case :=
      (first_local) or re-records the zone; observed: most probes in flight at once, probes sent,
      requests served from the failure cache, requests shed by the probe limit *)
 | CaseElect (n : Z) (first_local : bool) (max_in_flight calls served shed : Z)
+  (* abandoned leader: n concurrent requests below one expired zone, the probe's downstream blocks
+     until released and the waitgroup's generation bound (shortened by the driver) passes; late more
+     requests arrive while it is still blocked; then it is released (re-recording the zone, or failing
+     request-locally) and one last request arrives.  Observed: probes sent while blocked, followers
+     shed (first cohort, late ones), probes sent in all, the last request (0 served from the failure
+     cache, 1 became a probe, 2 shed) *)
+| CaseTimeout (n late : Z) (leader_local : bool) (calls_blocked shed_first shed_late calls_total : Z) (last : N)
   (* dns64 in front of the cache: per client AAAA query (source of the SERVFAIL: 0 failure cache,
      1 downstream shared, 2 downstream request-local; client EDNS; A lookups; downstream calls; rcode; EDE) *)
 | CaseWrap (steps : list (N * bool * Z * Z * N * option N))
@@ -318,6 +325,25 @@ Definition check_case (x : case) : bool :=
       (* the election model allows at most one probe in flight under every schedule
          (Properties.single_probe); every request ends as a probe, served or shed *)
       (mx =? 1) && (1 <=? calls) && (calls + served + shed =? n)
+  | CaseTimeout n late leader_local calls_blocked shed_first shed_late calls_total last =>
+      let nn := Z.to_nat n in let ll := Z.to_nat late in
+      let count_shed l := Z.of_nat (length (filter (fun q => match q with PShed => true | _ => false end) l)) in
+      let s1 := map AArrive (seq 0 nn) ++ [ATimeout 0] ++ map AWake (seq 1 (nn - 1)) ++
+                flat_map (fun i => [AArrive i; AWake i]) (seq nn ll) in
+      let st1 := probe_run (probe_init (nn + ll + 1)) s1 in
+      let lasti := (nn + ll)%nat in
+      let st2 := probe_run st1 [AFinish 0 (if leader_local then ONothing else OCovering); AArrive lasti; AWake lasti] in
+      (1 <=? n) && (0 <=? late) &&
+      (ps_elected st1 =? calls_blocked) && (in_flight st1 =? 1)%nat &&
+      (count_shed (firstn nn (ps_reqs st1)) =? shed_first) &&
+      (count_shed (skipn nn (firstn (nn + ll) (ps_reqs st1))) =? shed_late) &&
+      (ps_elected st2 =? calls_total) &&
+      match nth_error (ps_reqs st2) lasti with
+      | Some PServed => (last =? 0)%N
+      | Some (PLeader _) => (last =? 1)%N
+      | Some PShed => (last =? 2)%N
+      | _ => false
+      end
   | CaseWrap steps =>
       forallb (fun x : N * bool * Z * Z * N * option N => let '(k, edns, al, dc, rc, ede) := x in
         let src := if (k =? 0)%N then SrcFailureCache else if (k =? 1)%N then SrcSharedFailure else SrcRequestLocal in
@@ -639,6 +665,9 @@ Definition spec_case (x : case) : bool :=
       (e_streak after =? (if (e_streak before =? 4294967295)%N then e_streak before else e_streak before + 1))%N ||
       ((e_streak after =? 1)%N && existsb (fun w => w - e_retry before >=? max) nows)
   | CaseElect n first_local mx calls served shed => (mx <=? 1)
+  | CaseTimeout n late leader_local calls_blocked shed_first shed_late calls_total last =>
+      (* one probe at a time, also behind an abandoned leader; the next probe only after it ended *)
+      (calls_blocked <=? 1) && (calls_total <=? 2) && (if leader_local then true else calls_total =? 1)
   | CaseWrap steps =>
       (* a cached failure is answered without upstream traffic of any kind *)
       forallb (fun x : N * bool * Z * Z * N * option N => let '(k, edns, al, dc, rc, ede) := x in
